@@ -148,6 +148,12 @@ def mk_merge(st, it):
     env = Env()
     thr = ThrRef(z3.Int("thr_tok"))
     env.vars.update({"distances": "DIST", "bond_threshold": thr, "self": None})
+    # every other parameter of the enclosing _merge_clusters is visible to the inner function: distinct tokens
+    import ast as _ast
+    outer = sbc_ctx().get("SBC._merge_clusters").node
+    for a_ in outer.args.args:
+        if a_.arg not in env.vars and a_.arg not in ("system",):
+            env.vars[a_.arg] = ThrRef(z3.Int("outer_param_" + a_.arg))
     return [system, A, Bc], {}, {"closure": env, "ida": ida, "idb": idb, "n": n, "Zf": Zf, "rt": rt, "thr": thr, "H0": snapshot(st)}
 
 
